@@ -269,7 +269,7 @@ def run_shard(ctx, spec):
     schema = wire.parse_schema(os.path.join(build.repo(), "slice", "Compiler"))
     tmp = ctx.tmpdir()
     gen_path = os.path.join(tmp, "gen-ok-c08")
-    os.symlink(ctx.paths["fakegen"], gen_path)
+    core.link_tool(ctx.paths["fakegen"], gen_path)
     for n in range(count):
         prng = random.Random(rng.random())
         prog = gen.valid_program(prng, max_files=4, max_defs=5, type_depth=3, deprecated=(n % 4 == 0))
@@ -320,12 +320,12 @@ def run_shard(ctx, spec):
             elif lineup in ("after-noread", "after-exit1", "between"):
                 beh = {"after-noread": "noreadfail", "after-exit1": "exit1", "between": "exit1"}[lineup]
                 bad = os.path.join(case_dir, "gen-%s-bad" % beh)
-                os.symlink(ctx.paths["fakegen"], bad)
+                core.link_tool(ctx.paths["fakegen"], bad)
                 gspecs = [genspec.render(bad, other)] + gspecs
                 expect_failures = 1
                 if lineup == "between":
                     g2 = os.path.join(case_dir, "gen-ok-second")
-                    os.symlink(ctx.paths["fakegen"], g2)
+                    core.link_tool(ctx.paths["fakegen"], g2)
                     with open(os.path.join(log, "gen-ok-second.reply"), "wb") as f:
                         f.write(wire.enc_reply([]))
                     gspecs = [genspec.render(g2, args2)] + gspecs
